@@ -26,6 +26,7 @@ import PybropsModel.Lemmas.SelProtStablePerm
 import PybropsModel.Lemmas.SelProtSpace
 import PybropsModel.Lemmas.XConfigRepair
 import PybropsModel.Lemmas.SelProtOracle
+import PybropsModel.Lemmas.SelProtUC
 set_option autoImplicit false
 set_option linter.unusedSectionVars false
 set_option linter.unusedVariables false
@@ -1294,5 +1295,72 @@ theorem mate_outcrossed_counterexample :
     sampleMateOutcrossed [9, 13, 20] (xmapix 6 2 false) 3 2 [] [0, 1, 2] [0, 1, 2]
         [List.range 15, List.range 15, List.range 15] = .ok [[5, 4], [2, 4], [1, 5]] ∧
     specMateSubset [9, 13, 20] (xmapix 6 2 false) 3 2 [[5, 4], [2, 4], [1, 5]] = false := by decide
+
+/-! ## 16. Usefulness criterion: the criterion of a candidate cross depends on the cross type (round 5)
+
+`truncation_exact` is about whatever objective column the optimiser sees.  For the usefulness-criterion family the
+column is `-(epgc · bv[cross] + spread)`; the theorems below fix what the first summand is for each cross type, so
+"the best candidate crosses by their criterion" has a definite meaning for three-way crosses as well. -/
+
+/-- **Cross types with equal parental contributions** (two-way, dihybrid, four-way): the expected progeny mean of a
+    candidate cross is the mid-parent value of its parents. -/
+theorem uc_progeny_mean_equal_contributions {α : Type} [Field α] [CharZero α] (c : CrossType) (hc : c ≠ .threeWay)
+    (bv : List α) (cross : List Nat) (h : cross.length = c.nparent) :
+    progenyMean c.epgc bv cross = midParent bv cross := by
+  cases c with
+  | threeWay => exact absurd rfl hc
+  | twoWay =>
+    have h2 : cross.length = 2 := h
+    rw [epgc_twoWay, ← h2]; exact progenyMean_equal_eq_midParent bv cross
+  | dihybrid =>
+    have h2 : cross.length = 2 := h
+    rw [epgc_dihybrid, ← h2]; exact progenyMean_equal_eq_midParent bv cross
+  | fourWay =>
+    have h4 : cross.length = 4 := h
+    rw [epgc_fourWay, ← h4]; exact progenyMean_equal_eq_midParent bv cross
+
+example : CrossType.fourWay ≠ .threeWay ∧ ([3, 0, 2, 2] : List Nat).length = CrossType.fourWay.nparent := by decide
+
+/-- **Three-way crosses**: the recurrent parent (first entry of the cross-map row) contributes one half, the other
+    two a quarter each. -/
+theorem uc_progeny_mean_three_way {α : Type} [Field α] [CharZero α] (bv : List α) (r f m : Nat) :
+    progenyMean CrossType.threeWay.epgc bv [r, f, m] =
+      bv.getD r 0 / 2 + bv.getD f 0 / 4 + bv.getD m 0 / 4 := by
+  rw [epgc_threeWay]
+  simp only [progenyMean, List.zipWith_cons_cons, List.zipWith_nil_right, List.sum_cons, List.sum_nil]
+  ring
+
+/-- … which is NOT the mid-parent value, and the difference changes which crosses are the best (seeded change
+    C07-e2: `pmean = bvmat[cconfig,:].mean(0)`).  Four individuals with breeding values 4, 0, 5, 5, no spread, the two
+    best of the four three-way crosses: {(0,2,3), (0,1,2)} by the criterion, {(0,2,3), (1,2,3)} by mid-parent value;
+    the mid-parent choice fails the Spec evaluated on the criterion. -/
+theorem uc_three_way_midparent_counterexample :
+    let bv : List ℚ := [4, 0, 5, 5]
+    let xmap := xmapix 4 3 true
+    let crit := (ucTable CrossType.threeWay.epgc bv xmap [0, 0, 0, 0]).map (fun v => -v)
+    let mid := (xmap.map (midParent bv)).map (fun v => -v)
+    xmap = [[0, 1, 2], [0, 1, 3], [0, 2, 3], [1, 2, 3]] ∧
+    sortingSubset crit 2 = [2, 0] ∧ sortingSubset mid 2 = [2, 3] ∧
+    specTopK crit 2 (sortingSubset mid 2) = false := by decide +kernel
+
+/-- **Usefulness-criterion selection with the exact optimiser is truncation on the criterion.**  The objective column
+    is the negated criterion table (`obj_wt = 1`: the criterion is maximised): the decision is a best-`k` set, i.e. no
+    unchosen candidate cross has a strictly larger usefulness criterion than a chosen one — for every cross type,
+    every cross map and every spread. -/
+theorem uc_truncation_exact {α : Type} [Field α] [LinearOrder α] [IsStrictOrderedRing α] (c : CrossType)
+    (bv : List α) (xmap : List (List Nat)) (spread : List α) (k : Nat) :
+    let crit := ucTable c.epgc bv xmap spread
+    let S := sortingSubset (crit.map (fun v => -v)) k
+    S.length = min k crit.length ∧ S.Nodup ∧ (∀ i ∈ S, i < crit.length) ∧
+      ∀ i ∈ S, ∀ j, j < crit.length → j ∉ S → ∀ a b, crit[i]? = some a → crit[j]? = some b → b ≤ a := by
+  intro crit S
+  have ht := sortingSubset_topK (crit.map (fun v => -v)) k
+  refine ⟨by simpa using ht.len, ht.nodup, fun i hi => by simpa using ht.valid i hi, ?_⟩
+  intro i hi j _ hj a b ha hb
+  have := ht.best i hi j hj (-a) (-b) (by simp [ha]) (by simp [hb])
+  exact neg_le_neg_iff.mp this
+
+example : ucTable (CrossType.threeWay.epgc : List ℚ) [4, 0, 5, 5] (xmapix 4 3 true) [0, 1, 0, 2] =
+    [13 / 4, 17 / 4, 9 / 2, 9 / 2] := by decide +kernel
 
 end C07
